@@ -879,6 +879,13 @@ int cif_container_get_all_loops(cif_container_tp *container, cif_loop_tp ***loop
 
     cif = container->cif;
 
+    /*
+     * Create any needed prepared statements, or prepare the existing one(s)
+     * for re-use, exiting this function with an error on failure.  This must
+     * precede the transaction, which an early exit would leave open.
+     */
+    PREPARE_STMT(cif, get_all_loops, GET_ALL_LOOPS_SQL);
+
     if (BEGIN_NESTTX(cif->db) == SQLITE_OK) {
         int result = cif_container_validate(container);
 
@@ -889,12 +896,6 @@ int cif_container_get_all_loops(cif_container_tp *container, cif_loop_tp ***loop
             } *head = NULL;
             struct loop_el **next_loop_p = &head;
             struct loop_el *next_loop;
-
-            /*
-             * Create any needed prepared statements, or prepare the existing one(s)
-             * for re-use, exiting this function with an error on failure.
-             */
-            PREPARE_STMT(cif, get_all_loops, GET_ALL_LOOPS_SQL);
 
             if (sqlite3_bind_int64(cif->get_all_loops_stmt, 1, container->id) == SQLITE_OK) {
                 STEP_HANDLING;
@@ -922,6 +923,7 @@ int cif_container_get_all_loops(cif_container_tp *container, cif_loop_tp ***loop
                                 temp->container = container;
                                 temp->loop_num = sqlite3_column_int(cif->get_all_loops_stmt, 0);
                                 temp->names = NULL;
+                                temp->category = NULL;
                                 GET_COLUMN_STRING(cif->get_all_loops_stmt, 1, temp->category, HANDLER_LABEL(hard));
                                 loop_count += 1;
                             }
@@ -962,6 +964,7 @@ int cif_container_get_all_loops(cif_container_tp *container, cif_loop_tp ***loop
             FAILURE_HANDLER(soft):
             while (head != NULL) {
                 next_loop = head->next;
+                free(head->loop.category);
                 free(head);
                 head = next_loop;
             }
